@@ -23,16 +23,16 @@ Proof. destruct o as [h w [v|e] d| |]; cbn [then_]; auto. apply then_updd. Qed.
 Lemma obs_updd o d : obs (updd o d) = obs o. Proof. destruct o; reflexivity. Qed.
 
 (* a bind without handler IS sequencing: the bound action, then the continuation on its result *)
-Theorem bind_is_then n ip h w sp m f argv :
+Theorem bind_is_then n ip h w sp m f argv : late_ok f = true ->
   exec (S n) ip h w (VIO (IOBind sp m f None argv)) = then_ (exec n ip h w m) (kleisli n ip f sp).
-Proof. rewrite bind_runs_in_order. unfold kleisli. destruct (exec n ip h w m) as [h1 w1 [x|e] d1| |]; reflexivity. Qed.
+Proof. intros Hok. rewrite bind_runs_in_order by assumption. unfold kleisli. destruct (exec n ip h w m) as [h1 w1 [x|e] d1| |]; reflexivity. Qed.
 
 (* ---------- left identity:  return a >>= f  =  f a ---------- *)
 (* `a` is what an action can yield: not delayed, and not itself an action (do_IO runs until the value is not an action;
    see return_of_action_runs_it below for that case) *)
-Theorem left_identity n ip h w sp a f argv : isthunk a = false -> is_io a = false ->
+Theorem left_identity n ip h w sp a f argv : isthunk a = false -> is_io a = false -> late_ok f = true ->
   exec (S (S (S n))) ip h w (VIO (IOBind sp (VIO (IOReturn a)) f None argv)) = kleisli (S (S n)) ip f sp h w a.
-Proof. intros T I. rewrite bind_is_then, return_spec by assumption. cbn [then_]. apply updd_0. Qed.
+Proof. intros T I Hok. rewrite bind_is_then, return_spec by assumption. cbn [then_]. apply updd_0. Qed.
 
 (* the executor keeps going while the result is an action: a returned ACTION is executed as well (main.do_IO's loop;
    its result type is NonIOStrictValue).  So `return a` with `a` an action behaves as `a`, not as a wrapper. *)
@@ -120,7 +120,7 @@ Theorem right_identity n ip h w sp m argv h1 w1 x d1 :
 Proof.
   intros Hm D Hn. pose proof (exec_result_not_io _ _ _ _ _ _ _ _ _ Hm) as NI.
   assert (T : isthunk x = false) by (destruct x; try reflexivity; destruct D).
-  rewrite bind_is_then, Hm. cbn [then_]. unfold kleisli.
+  rewrite bind_is_then, Hm by reflexivity. cbn [then_]. unfold kleisli.
   destruct n as [|[|n]]; try lia.
   cbn [bs apply_body]. rewrite builtin_return. rewrite (run_is_runG (bs (S n))). unfold bi_return.
   cbn [length check_arity existsb Nat.eqb orb bind runG call]. change (proc_body (PDeep x)) with (deep_body x).
@@ -130,7 +130,7 @@ Qed.
 Theorem right_identity_failure n ip h w sp m argv h1 w1 e d1 :
   exec n ip h w m = Done h1 w1 (inr e) d1 ->
   exec (S n) ip h w (VIO (IOBind sp m (EBuiltin b_return) None argv)) = Done h1 w1 (inr e) d1.
-Proof. intros Hm. rewrite bind_is_then, Hm. reflexivity. Qed.
+Proof. intros Hm. rewrite bind_is_then, Hm by reflexivity. reflexivity. Qed.
 
 (* what ㄱㅅ builds always holds a fully evaluated value *)
 Theorem return_yields_deep n sp a ip h w h' w' v d :
@@ -147,9 +147,9 @@ Qed.
 Definition pipeline3 n ip sp h w m f g : out :=
   then_ (exec n ip h w m) (fun h1 w1 x => then_ (kleisli n ip f sp h1 w1 x) (fun h2 w2 y => kleisli (S n) ip g sp h2 w2 y)).
 
-Theorem assoc_left n ip h w sp m f g argv argv' :
+Theorem assoc_left n ip h w sp m f g argv argv' : late_ok f = true -> late_ok g = true ->
   exec (S (S n)) ip h w (VIO (IOBind sp (VIO (IOBind sp m f None argv)) g None argv')) = pipeline3 n ip sp h w m f g.
-Proof. rewrite bind_is_then, bind_is_then. unfold pipeline3. apply then_assoc. Qed.
+Proof. intros Hf Hg. rewrite bind_is_then, bind_is_then by assumption. unfold pipeline3. apply then_assoc. Qed.
 
 (* The right-nested form  m >>= (fun x => f x >>= g)  needs a closure built by the program; applying it evaluates `f x`, requires an
    action r' and builds r' >>= g (bi_bind), after which bind_is_then gives  m, then r', then g  again.  That step goes through the
